@@ -44,6 +44,7 @@ type mesh struct {
 	w     *kit.World
 	nodes []*kit.Node
 	g     graph
+	links [][2]*kit.VLink // per edge: link at e[0], link at e[1]
 }
 
 func build(g graph, twoByteLabels bool) *mesh { return buildWith(g, twoByteLabels, false) }
@@ -75,8 +76,9 @@ func buildWith(g graph, twoByteLabels bool, relaysWithoutTun bool) *mesh {
 		la, lb := next[e[0]], next[e[1]]
 		next[e[0]]++
 		next[e[1]]++
-		_, _, err := w.Connect(ms.nodes[e[0]], ms.nodes[e[1]], la, lb, uint16(5+ei%3))
+		l0, l1, err := w.Connect(ms.nodes[e[0]], ms.nodes[e[1]], la, lb, uint16(5+ei%3))
 		must(err)
+		ms.links = append(ms.links, [2]*kit.VLink{l0, l1})
 	}
 	return ms
 }
@@ -204,7 +206,7 @@ func rawFrame(n *kit.Node, src, dst netip.Addr, mt frame.MessageType, sw []byte,
 func TestC10(t *testing.T) {
 	env := kit.GetEnv()
 	rep := kit.NewReport("C10", env)
-	rep.Rule = "(a) converged meshes (all connected graphs on 2-4 routers, lines/rings/stars/trees/grids up to 8 quick / 16 thorough routers, 1- and 2-byte labels): for every ordered pair (A,B) a routed ping-pong from A to B followed to quiescence; (a2) network traffic between every pair of tun-equipped routers across relays with and without a tun interface; (b) adversarial forwarding state on complete graphs of 2-4 (thorough 5) routers: every assignment of 'next hop towards D' per router (includes every cycle and dead end), x initial TTL {0,1,2,3,32,255} x message class {signed, encrypted} x entry router/link, for routed frames; label-switched frames with switch blocks over {valid path, cyclic, too short for the return label, zero-first, dangling label, non-terminated} x label maps; every link crossing of the injected frame is checked (TTL strictly decreasing, crossings <= TTL0-1, bytes preserved outside TTL/flow/switch block); non-trivial = frame crossed at least one link or had to be refused; distinct = distinct (world, injected frame)"
+	rep.Rule = "(a) converged meshes (all connected graphs on 2-4 routers, lines/rings/stars/trees/grids up to 8 quick / 16 thorough routers, 1- and 2-byte labels): for every ordered pair (A,B) a routed ping-pong from A to B followed to quiescence; (a2) network traffic between every pair of tun-equipped routers across relays with and without a tun interface; (a3) histories on rings, grids and complete graphs: one-way traffic from every router to B, loss of each redundant link (both ends unregister it and flood disconnect notices), traffic from every router to B again, re-announcement by everyone, traffic again - each frame handed to B exactly once whenever the routers' own tables lead from A to B hop by hop over registered links; (b) adversarial forwarding state on complete graphs of 2-4 (thorough 5) routers: every assignment of 'next hop towards D' per router (includes every cycle and dead end), x initial TTL {0,1,2,3,32,255} x message class {signed, encrypted} x entry router/link, for routed frames; label-switched frames with switch blocks over {valid path, cyclic, too short for the return label, zero-first, dangling label, non-terminated} x label maps; every link crossing of the injected frame is checked (TTL strictly decreasing, crossings <= TTL0-1, bytes preserved outside TTL/flow/switch block); non-trivial = frame crossed at least one link or had to be refused; distinct = distinct (world, injected frame)"
 	rep.Assumptions = []string{
 		"transit frames are relayed without authentication (by design), so injected frames need no valid seal",
 		"deliveries are sequential (one handler invocation at a time), FIFO in (a); a single unicast frame has one frame in flight at a time, so its delivery order is unique",
@@ -342,6 +344,124 @@ func TestC10(t *testing.T) {
 					}
 				}
 			})
+		}
+	}
+
+	// ---------------- (a3) histories: traffic, loss of a redundant link, re-convergence, traffic.
+	// One world per (lost link, destination B): every other tun-equipped router
+	// sends one-way traffic to B, the link is lost (both ends unregister it and
+	// send their disconnect notices), the mesh re-converges, and every router
+	// sends to B again; each frame must be handed to B's interface exactly once.
+	// A frame is owed to B whenever the routers' own tables, followed hop by
+	// hop over registered links, lead from A to B ("converged for this pair");
+	// stale routes elsewhere in the mesh (disconnect notices are not relied
+	// upon) only remove pairs from the obligation.
+	a3 := []graph{ring(4), ring(5), grid(2, 3), complete(4)}
+	if env.Thorough() {
+		a3 = append(a3, ring(7), grid(3, 3), complete(5))
+		a3 = append(a3, connectedGraphs(4)...)
+	}
+	for _, g := range a3 {
+		for ei := range g.edges {
+			if !connectedWithout(g, ei) {
+				continue
+			}
+			for bi := 0; bi < g.n; bi++ {
+				if !mine() {
+					continue
+				}
+				synctest.Test(t, func(t *testing.T) {
+					ms := build(g, false)
+					ms.converge()
+					b := ms.nodes[bi]
+					round := func(phase string) {
+						for ai, a := range ms.nodes {
+							if ai == bi {
+								continue
+							}
+							if phase == "before" {
+								must(kit.KeySessions(a, b))
+							}
+							pk := make([]byte, 60)
+							pk[0], pk[5], pk[6], pk[7] = 0x60, 20, 6, 64
+							sa, sb := a.Identity().IP.As16(), b.Identity().IP.As16()
+							copy(pk[8:24], sa[:])
+							copy(pk[24:40], sb[:])
+							pk[40], pk[41], pk[42], pk[43] = 0x9c, byte(ai*16+bi), 0, 80
+							pk[59] = phase[0]
+							ps := a.FrameBuilder().GetPooledSlice(len(pk))
+							copy(ps, pk)
+							owed := ms.tablesLead(a, b)
+							ms.w.Log = nil
+							_ = ms.w.TunPacket(a, ps[:len(pk)])
+							ms.drain(10000)
+							evals++
+							if owed {
+								nontrivial++
+							}
+							desc := fmt.Sprintf("%s lost-link=%v traffic %s->%s %s the loss", g.name, g.edges[ei], a.Name, b.Name, phase)
+							// got: crossings that brought the frame to B's router.
+							// (Whether B's inbound policy then hands it to the
+							// interface depends on connection state that stale
+							// routes may have marked unreachable - outside C10.)
+							got, tun := 0, 0
+							for _, fl := range ms.w.Log {
+								if fl.To == b && fl.Bytes[4] == byte(frame.NetworkTraffic) &&
+									bytes.Equal(fl.Bytes[16:32], sa[:]) && bytes.Equal(fl.Bytes[32:48], sb[:]) {
+									got++
+								}
+							}
+							for {
+								select {
+								case f := <-b.TunDevice().SendFrame:
+									if bytes.Equal(f.MessageData(), pk) {
+										tun++
+									}
+									f.ReturnToPool()
+									continue
+								default:
+								}
+								break
+							}
+							if tun > got || (phase == "before" && tun != got) {
+								rep.Violate("history/"+phase+"-link-loss/interface-handoff", fmt.Sprintf("frame reached B %d times but was handed to its interface %d times: %s", got, tun, desc), desc)
+							}
+							if got == 1 && tun == 0 {
+								rep.Outcome("history/" + phase + "/reached-B,-inbound-policy-refused(connection marked unreachable via stale route)")
+							}
+							switch {
+							case got == 0 && !owed:
+								rep.Outcome("history/" + phase + "/tables-give-no-path(no obligation)")
+								continue
+							case got == 1 && !owed:
+								rep.Outcome("history/" + phase + "/delivered-without-obligation")
+								continue
+							}
+							if got != 1 {
+								rep.Violate("history/"+phase+"-link-loss/not-delivered", fmt.Sprintf("traffic frame reached B's router %d times: %s", got, desc), desc)
+								rep.Outcome("history/" + phase + "/failed")
+							} else {
+								rep.Outcome("history/" + phase + "/ok")
+							}
+						}
+					}
+					round("before")
+					e := g.edges[ei]
+					ms.links[ei][0].Close(nil)
+					ms.links[ei][1].Close(nil)
+					must(ms.nodes[e[0]].Router().DisconnectPing.Send(false, []netip.Addr{ms.nodes[e[1]].Identity().IP}))
+					must(ms.nodes[e[1]].Router().DisconnectPing.Send(false, []netip.Addr{ms.nodes[e[0]].Identity().IP}))
+					ms.drain(100000)
+					round("after")
+					time.Sleep(11 * time.Second)
+					ms.converge()
+					round("after-reannounce")
+					if len(ms.w.Panics) > 0 {
+						rep.Violate("history/panic", ms.w.Panics[0], g.name)
+						ms.w.Panics = nil
+					}
+				})
+			}
 		}
 	}
 
@@ -483,6 +603,59 @@ func TestC10(t *testing.T) {
 	if err := rep.Finish(env); err != nil {
 		t.Fatal(err)
 	}
+}
+
+// tablesLead follows the routers' own routing tables hop by hop (the rule of
+// RouteFrame: best route to the destination, never back over the receiving
+// link, next hop must have a registered link) and reports whether they lead
+// from a to b.
+func (ms *mesh) tablesLead(a, b *kit.Node) bool {
+	cur := a
+	var prev *kit.Node
+	for i := 0; i < 32; i++ {
+		if cur == b {
+			return true
+		}
+		rte, _ := cur.RoutingTable().LookupNearestRoute(b.Identity().IP)
+		if rte == nil {
+			return false
+		}
+		if prev != nil && rte.NextHop == prev.Identity().IP {
+			return false
+		}
+		if cur.Peering().GetLink(rte.NextHop) == nil {
+			return false
+		}
+		prev, cur = cur, ms.w.ByIP[rte.NextHop]
+		if cur == nil {
+			return false
+		}
+	}
+	return false
+}
+
+// connectedWithout reports whether g stays connected when edge skip is removed.
+func connectedWithout(g graph, skip int) bool {
+	seen := make([]bool, g.n)
+	seen[0] = true
+	for changed := true; changed; {
+		changed = false
+		for i, e := range g.edges {
+			if i == skip {
+				continue
+			}
+			if seen[e[0]] != seen[e[1]] {
+				seen[e[0]], seen[e[1]] = true, true
+				changed = true
+			}
+		}
+	}
+	for _, s := range seen {
+		if !s {
+			return false
+		}
+	}
+	return true
 }
 
 func repeat(v uint64, n int) []uint64 {
